@@ -928,3 +928,25 @@ def _pool_named(eng, st, arr, X, a, b, c, d):
     return _data_id(eng, st, arr) == _POOLID(_data_id(eng, st, X), to_z3(a), to_z3(b), to_z3(c), to_z3(d))
 _QOF = z3.Function("QOF", _I, _I, _I)
 SPEC_FUNCS["QOF"] = lambda eng, st, kind, p: _QOF(to_z3(kind), to_z3(p))      # number of output columns of configuration `kind` on p-column data
+
+
+# ----------------------------------------------------------------------------- skolem witnesses attached to a returned list
+# WIT(name, lst, r): an integer witness for the r-th element of the list `lst` (an uninterpreted function of the list identity and r). A post
+# "forall r: P(r, WIT(name, result, r))" is the skolemised form of "forall r: exists a: P(r, a)"; inside the function WIT_DEF *defines* the fresh
+# function on this list by the ghost array that holds the witnesses (a conservative definition: nothing else constrains WIT_name on this list).
+_WIT = {}
+
+
+@spec("WIT")
+def _wit(eng, st, name, lst, r):
+    f = _WIT.setdefault(name, z3.Function("WIT_" + name, _I, _I, _I))
+    return f(_list_id(lst), to_z3(r))
+
+
+@spec("WIT_DEF")
+def _wit_def(eng, st, name, lst, arr):
+    f = _WIT.setdefault(name, z3.Function("WIT_" + name, _I, _I, _I))
+    r = z3.Int(fresh_name("r"))
+    lid = _list_id(lst)
+    eng.note_assumption(f"definition: the skolem witness function WIT_{name} of the returned list is the ghost array of witnesses (skolemised existential)")
+    return z3.ForAll([r], z3.Implies(z3.And(0 <= r, r < to_z3(lst.length)), f(lid, r) == to_z3(arr.get(r))), patterns=[f(lid, r)])
